@@ -307,6 +307,8 @@ func (r *run) nodeContext(env envs.Environment) map[string]types.XValue {
 
 // EvaluateTemplate evaluates the given template in the context of this run
 func (r *run) EvaluateTemplateValue(template string, log flows.EventCallback) (types.XValue, bool) {
+	observeTemplate(r, template, true)
+
 	ctx := types.NewXObject(r.RootContext(r.session.MergedEnvironment()))
 
 	value, warnings, err := r.session.Engine().Evaluator().TemplateValue(r.session.MergedEnvironment(), ctx, template)
@@ -321,6 +323,8 @@ func (r *run) EvaluateTemplateValue(template string, log flows.EventCallback) (t
 
 // EvaluateTemplateText evaluates the given template as text in the context of this run
 func (r *run) EvaluateTemplateText(template string, escaping excellent.Escaping, truncate bool, log flows.EventCallback) (string, bool) {
+	observeTemplate(r, template, false)
+
 	ctx := types.NewXObject(r.RootContext(r.session.MergedEnvironment()))
 
 	value, warnings, err := r.session.Engine().Evaluator().Template(r.session.MergedEnvironment(), ctx, template, escaping)
